@@ -636,18 +636,10 @@ def well_formed_py(d):
     return False
 
 
-# ----------------------------------------------------------------------------- known findings (classifiers on the finding record)
-def clf_cp_order1_unfolded(f):
-    i = f["inputs"]
-    return i.get("kind") == "cp" and i.get("order") == 1 and str(i.get("view", "")).startswith("unfolded(0")
-
-
-def clf_cp_order1_mask(f):
-    i = f["inputs"]
-    return i.get("kind") == "cp" and i.get("order") == 1 and i.get("masked") and str(i.get("view", "")).startswith("tensor")
-
-
-CLASSIFIERS = {"cp_order1_unfolded": clf_cp_order1_unfolded, "cp_order1_mask_ignored": clf_cp_order1_mask}
+# ----------------------------------------------------------------------------- known findings
+# none at present: the two order-1 findings of round 1 (cp_to_unfolded IndexError, mask ignored) were repaired in /repo
+# (b1a796c, 5ac4e66); their witnesses live on in corpus/C03/ and as Examples in Props/C03.v.
+CLASSIFIERS = {}
 
 
 def describe(d):
